@@ -165,6 +165,7 @@ theorem pend_leaves : Leaves (keeps PendInv) where
   clearRules := fun _ _ h => h
   removeConn := fun _ _ h => h
   connect := fun _ _ _ _ _ _ h => h
+  setFull := fun _ _ h => h
 
 /-- in every reachable state no slot (caller, callee, serial) is recorded twice -/
 theorem pending_never_duplicated (tbl : List IfaceRow) (l : Limits) (p : Policy) (evs : List Ev) :
@@ -236,5 +237,28 @@ theorem noReply_shape (b : Bus) (p : Pending) :
   refine ⟨_, rfl, ?_, (stampDriver_busMade b p.caller (known_mkError _ _)).1⟩
   unfold stampDriver
   cases b.nameOf p.caller <;> rfl
+
+/-- **A callee that is not reading gets no call and owes no reply.** When the addressed recipient's
+    outgoing queue is over the limit the gate refuses (LimitsExceeded unless the policy refuses first)
+    and a method call leaves the pending-reply list exactly as it was: no slot is recorded for a call
+    that was never delivered. -/
+theorem full_queue_opens_no_slot (b : Bus) (s a : ConnId) (m : Msg) (hfull : queueFull b (some a) = true)
+    (hnr : m.replySerial = 0) :
+    (checkPolicy b (some s) (some a) (some a) m).1 = b.pending ∧ (checkPolicy b (some s) (some a) (some a) m).2 ≠ none := by
+  unfold checkPolicy
+  split
+  · exact ⟨rfl, by simp⟩
+  · have hrr : requestedReply b (some s) (some a) (some a) m = (b.pending, false) := by
+      unfold requestedReply
+      simp [hnr]
+    simp only [hrr]
+    have hv : policyVerdict b (some s) (some a) (some a) m false ≠ none := by
+      unfold policyVerdict
+      simp only [Option.isNone_some, Bool.false_and, Bool.false_eq_true, if_false, hfull, if_true]
+      repeat' split
+      all_goals simp
+    cases hp : policyVerdict b (some s) (some a) (some a) m false with
+    | none => exact absurd hp hv
+    | some e => exact ⟨rfl, by simp⟩
 
 end Dbus.Props.C09
